@@ -38,6 +38,24 @@ type clNode struct {
 
 func (c *clNode) up() bool { return c.phase == "run" || c.phase == "leaving" }
 
+// mlAlive: memberlist can still present the node as alive to its peers. Once a
+// leaving node has done its memberlist-level leave (it then lists itself as left)
+// its own "dead" message wins over any later alive claim.
+func (c *clNode) mlAlive() bool {
+	if c.phase == "run" {
+		return true
+	}
+	if c.phase != "leaving" {
+		return false
+	}
+	for _, m := range serf.VDump(c.n.S).Members {
+		if m.Name == c.name {
+			return m.Status != "left"
+		}
+	}
+	return false
+}
+
 type cluster struct {
 	nodes   []*clNode
 	side    map[int]int // partition side per node index (all 0 = healed)
@@ -47,6 +65,7 @@ type cluster struct {
 	joinLT  map[string]uint64 // newest join intent a node broadcast about itself
 	leaveLT map[string]uint64 // newest leave / force-leave intent about a node
 	graceful map[string]bool  // the node completed a graceful Leave in its current incarnation
+	claimedUp map[string]bool // somebody force-left the member while it was in fact up (a wrong claim)
 	viol    []vc.BFSViolation
 	log     []string
 }
@@ -241,7 +260,7 @@ func (cl *cluster) transfer(from, to *clNode) {
 func (cl *cluster) aliveKnown(k *clNode) []*clNode {
 	out := []*clNode{k}
 	for _, x := range cl.nodes {
-		if x != k && k.view[x.name] == 1 && x.up() {
+		if x != k && k.view[x.name] == 1 && x.mlAlive() {
 			out = append(out, x)
 		}
 	}
@@ -340,9 +359,11 @@ func (cl *cluster) apply(act string) bool {
 		}
 		cl.used++
 		a.phase = "crashed"
-		a.leaveTh = nil
 		cl.graceful[a.name] = false
-		a.n.S.Shutdown()
+		if a.leaveTh == nil {
+			a.n.S.Shutdown()
+		} // else: the abandoned instance's Leave thread may still run; nothing it does is observed
+		a.leaveTh = nil
 	case "restart":
 		a := node(f[1])
 		if a == nil || a.up() || !cl.deathKnown(a) {
@@ -352,6 +373,7 @@ func (cl *cluster) apply(act string) bool {
 		nn := cl.newNode(a.idx, a.epoch+1)
 		cl.nodes[a.idx] = nn
 		cl.graceful[a.name] = false
+		cl.claimedUp[a.name] = false
 		cl.joinLT[a.name] = 0
 	case "forceleave":
 		a, x := node(f[1]), node(f[2])
@@ -362,6 +384,9 @@ func (cl *cluster) apply(act string) bool {
 			return false
 		}
 		cl.used++
+		if x.up() {
+			cl.claimedUp[x.name] = true
+		}
 		if lt := serf.VDump(a.n.S).Clock; lt > cl.leaveLT[x.name] {
 			cl.leaveLT[x.name] = lt
 		}
@@ -415,7 +440,7 @@ func (cl *cluster) apply(act string) bool {
 		b.n.Delegate().NotifyMsg(raw)
 	case "mljoin":
 		k, x := node(f[1]), node(f[2])
-		if k == nil || x == nil || !k.up() || !x.up() || k.view[x.name] == 1 || !cl.reachable(k, x) || !cl.connected(k, x) {
+		if k == nil || x == nil || !k.up() || !x.mlAlive() || k.view[x.name] == 1 || !cl.reachable(k, x) || !cl.connected(k, x) {
 			return false
 		}
 		cl.learnAlive(k, x)
@@ -501,7 +526,7 @@ func (cl *cluster) enabled() []string {
 					out = append(out, fmt.Sprintf("forceleave %d %d", a.idx, b.idx))
 				}
 			}
-			if a.up() && b.up() && a.view[b.name] != 1 && cl.reachable(a, b) && cl.connected(a, b) {
+			if a.up() && b.mlAlive() && a.view[b.name] != 1 && cl.reachable(a, b) && cl.connected(a, b) {
 				out = append(out, fmt.Sprintf("mljoin %d %d", a.idx, b.idx))
 			}
 			if a.up() && a.view[b.name] == 1 && (!b.up() || !cl.reachable(a, b)) {
@@ -653,7 +678,7 @@ func (cl *cluster) closure() {
 				}
 				if !x.up() {
 					cl.learnDead(k, x)
-				} else if k.view[x.name] != 1 && cl.connected(k, x) {
+				} else if k.view[x.name] != 1 && x.mlAlive() && cl.connected(k, x) {
 					cl.learnAlive(k, x)
 				}
 			}
@@ -745,7 +770,12 @@ func (cl *cluster) oracle(hist []string) {
 				want = []string{"alive", "leaving"}
 			default: // down
 				left := cl.graceful[name] || cl.leaveLT[name] > cl.joinLT[name]
-				if left {
+				if cl.claimedUp[name] {
+					// the member was force-left while it was up and the claim may never have reached it
+					// (it would have refuted it); memberlist brought it back as alive meanwhile. Whether
+					// its later departure counts as left or failed is not settled by the statement.
+					want = []string{"left", "failed"}
+				} else if left {
 					want = []string{"left"}
 					// the intent must have been handed to a node that is still running
 					handed := false
@@ -798,7 +828,7 @@ func (clusterModel) Exec(scenario string, hist []string) vc.BFSState {
 	var st vc.BFSState
 	x := vsched.Run(vsched.RunOpts{MaxSteps: 3000000}, func() {
 		n, budget, faults := clParse(scenario)
-		cl := &cluster{side: map[int]int{}, faults: faults, budget: budget, joinLT: map[string]uint64{}, leaveLT: map[string]uint64{}, graceful: map[string]bool{}}
+		cl := &cluster{side: map[int]int{}, faults: faults, budget: budget, joinLT: map[string]uint64{}, leaveLT: map[string]uint64{}, graceful: map[string]bool{}, claimedUp: map[string]bool{}}
 		vsched.SetHorizon(0)
 		for i := 0; i < n; i++ {
 			cl.nodes = append(cl.nodes, cl.newNode(i, 0))
